@@ -38,6 +38,7 @@ REQUIRED = {
     "from_data_roundtrips": 60,
     "storage_roundtrips": 40,
     "annular_cylinders": 5,
+    "tiny_inner_radii": 30,
     "symmetric_grid_vector_collections": 5,
 }
 
@@ -205,6 +206,10 @@ def run_shard(spec: dict) -> ShardResult:
     rng = np.random.default_rng([spec["seed"], 14, spec["index"]])
     for case_no in range(spec["cases"]):
         gspec = gen.random_grid_spec(rng, sizes=(1, 2, 3, 4, 5))
+        if isinstance(gspec.get("radius"), list) and rng.random() < 0.2:
+            # a hole so small that any tolerance-based comparison with zero would lose it
+            gspec["radius"] = [float(rng.choice([1e-300, 1e-12, 5e-9, 2e-8, 1e-6])), gspec["radius"][1]]
+            res.count("tiny_inner_radii")
         try:
             grid = gen.make_grid(numpyfy(gspec, rng))
         except Exception as exc:
